@@ -152,3 +152,138 @@ theorem line_line_be (a b c d : Pt) (hab : a ≠ b) :
   exact h
 
 end Geo.Proofs.RELM3
+
+namespace Geo.Proofs.RELM3
+open Geo Geo.GG Geo.RI Geo.Proofs.Spec Geo.Proofs.RELM Geo.Proofs.RELM2 Geo.Proofs.Kernel
+open Geo.Proofs.C02X Geo.Proofs.C02Q
+
+/-! ### Line × Line, the cells IE / EI -/
+
+/-- a point of a segment of the arrangement that is not a vertex is represented by a ONE-dimensional atom with its
+pair of locations (the midpoint of its elementary sub-segment) -/
+theorem atom_one_of_nonvertex {pa pb : Parts} (ca : ClosedRings pa) (cb : ClosedRings pb) {p : Pt}
+    (hv : p ∉ vertsOf pa pb) {s : Pt × Pt} (hs : s ∈ pa.allSegs ++ pb.allSegs) (hpm : SegMem p s.1 s.2) :
+    ∃ x ∈ atomsOf pa pb, x.dim = .one ∧ x.posA = locateParts pa p ∧ x.posB = locateParts pb p := by
+  obtain ⟨a, b⟩ := s
+  obtain ⟨ha, hb⟩ := ends_mem_vertsOf hs
+  have hab : a ≠ b := by
+    intro e
+    subst e
+    rw [SegMem_degenerate] at hpm
+    exact hv (hpm ▸ ha)
+  obtain ⟨u, v, E, hw⟩ := exists_elem hab ha hb hpm hv
+  have hmw := E.midpoint_within
+  obtain ⟨_, _, hall⟩ := segAtoms_of_pair pa pb hab E.pair E.ne
+  refine ⟨⟨.one, locateParts pa (midpoint u v), locateParts pb (midpoint u v)⟩, ?_, rfl, ?_, ?_⟩
+  · unfold atomsOf
+    exact List.mem_append_right _ (List.mem_flatMap.mpr ⟨(a, b), hs, hall _ (Or.inl rfl)⟩)
+  · exact locate_const (fun s hs' => List.mem_append_left _ hs') (fun c hc => allCoords_mem_verts_left hc)
+      ca hs E hw hmw
+  · exact locate_const (fun s hs' => List.mem_append_right _ hs') (fun c hc => allCoords_mem_verts_right hc)
+      cb hs E hw hmw
+
+/-- a vertex of the arrangement of two segments is an end point of the first or lies on the second -/
+theorem verts_line_line {a b c d v : Pt} (hv : v ∈ vertsOf ⟨[], [[a, b]], []⟩ ⟨[], [[c, d]], []⟩) :
+    v = a ∨ v = b ∨ SegMem v c d := by
+  unfold vertsOf at hv
+  rw [Geo.Proofs.Spec.mem_dedupPts, allSegs_line, allSegs_line] at hv
+  simp only [List.mem_append] at hv
+  rcases hv with (((hv | hv) | hv) | hv) | hv
+  · simp only [endsOf, List.cons_append, List.nil_append, List.flatMap_cons, List.flatMap_nil, List.append_nil,
+      List.mem_cons, List.not_mem_nil, or_false] at hv
+    rcases hv with rfl | rfl | rfl | rfl
+    · exact Or.inl rfl
+    · exact Or.inr (Or.inl rfl)
+    · exact Or.inr (Or.inr (SegMem_left _ _))
+    · exact Or.inr (Or.inr (SegMem_right _ _))
+  · simp [singleOf] at hv
+  · cases hv
+  · cases hv
+  · rw [mem_pairVertices_iff] at hv
+    obtain ⟨s, hs, t, ht, hx⟩ := hv
+    have hon : ∀ (p1 p2 q1 q2 : Pt), v ∈ segVertex (p1, p2) (q1, q2) → SegMem v p1 p2 ∧ SegMem v q1 q2 := by
+      intro p1 p2 q1 q2 h
+      unfold segVertex at h
+      split at h
+      · rename_i q f hli
+        simp only [List.mem_singleton] at h
+        subst h
+        exact (Geo.Proofs.C11.li_single_exact p1 p2 q1 q2 v f hli v).2 rfl
+      · cases h
+    simp only [List.cons_append, List.nil_append, List.mem_cons, List.not_mem_nil, or_false] at hs ht
+    rcases hs with rfl | rfl <;> rcases ht with rfl | rfl
+    · rw [segVertex_self] at hx; cases hx
+    · exact Or.inr (Or.inr (hon _ _ _ _ hx).2)
+    · exact Or.inr (Or.inr (hon _ _ _ _ hx).1)
+    · rw [segVertex_self] at hx; cases hx
+
+theorem locate_line_outside_iff (c d p : Pt) :
+    locateParts ⟨[], [[c, d]], []⟩ p = .outside ↔ ¬ SegMem p c d := by
+  rw [locateParts_linear _ _ rfl rfl]
+  have hon : onAnySeg p (Parts.curveSegs ⟨[], [[c, d]], []⟩) = lineCoord c d p := by
+    simp [Parts.curveSegs, onAnySeg, segs]
+  rw [hon, ← lineCoord_iff]
+  cases lineCoord c d p
+  · simp
+  · simp only [if_true]
+    constructor
+    · intro h; split at h <;> cases h
+    · intro h; exact absurd trivial h
+
+theorem dim_value_of_iff {c k : Dim} {P : Prop}
+    (key : ∀ d : Dim, d.rank ≤ c.rank ↔ d = .empty ∨ (d.rank ≤ k.rank ∧ P)) (hk : k ≠ .empty) :
+    (c = k ↔ P) ∧ (c = .empty ↔ ¬ P) := by
+  by_cases hP : P
+  · have h1 : k.rank ≤ c.rank := (key k).2 (Or.inr ⟨Nat.le_refl _, hP⟩)
+    have h2 : c.rank ≤ k.rank := by
+      rcases (key c).1 (Nat.le_refl _) with h | ⟨h, _⟩
+      · rw [h]; exact Nat.zero_le _
+      · exact h
+    have hck : c = k := by
+      cases c <;> cases k <;> simp [Dim.rank] at h1 h2 ⊢
+    refine ⟨⟨fun _ => hP, fun _ => hck⟩, ⟨fun h => ?_, fun h => absurd hP h⟩⟩
+    rw [hck] at h
+    exact absurd h hk
+  · have hc : c = .empty := by
+      rcases (key c).1 (Nat.le_refl _) with h | ⟨_, h⟩
+      · exact h
+      · exact absurd h hP
+    refine ⟨⟨fun h => ?_, fun h => absurd h hP⟩, ⟨fun _ => hP, fun _ => hc⟩⟩
+    rw [hc] at h
+    exact absurd h.symm hk
+
+/-- **Line × Line, the cell IE**: `1` iff some point of the open first segment is off the second segment, `F`
+otherwise (never `0`) -/
+theorem line_line_ie (a b c d : Pt) (hab : a ≠ b) :
+    ((relateSpec (.line a b) (.line c d)).ie = .one ↔ ∃ x, SegInt x a b ∧ ¬ SegMem x c d) ∧
+    ((relateSpec (.line a b) (.line c d)).ie = .empty ↔ ¬ ∃ x, SegInt x a b ∧ ¬ SegMem x c d) := by
+  apply dim_value_of_iff _ (by decide)
+  intro e
+  show e.rank ≤ ((relateParts ⟨[], [[a, b]], []⟩ ⟨[], [[c, d]], []⟩).get .inside .outside).rank ↔ _
+  rw [cell_le_iff (by simp)]
+  constructor
+  · rintro (rfl | ⟨x, hx, hxa, hxb, hd⟩)
+    · exact Or.inl rfl
+    · right
+      rcases mem_atomsOf_cases hx with ⟨v, _, rfl⟩ | ⟨s, _, _, m, _, _, rfl | rfl | rfl⟩
+      · exact ⟨Nat.le_trans hd (show Dim.zero.rank ≤ Dim.one.rank by decide), v,
+          (locate_line_inside a b v hab).1 hxa, (locate_line_outside_iff c d v).1 hxb⟩
+      · exact ⟨hd, m, (locate_line_inside a b m hab).1 hxa, (locate_line_outside_iff c d m).1 hxb⟩
+      · simp only [locateFace_linear] at hxa; cases hxa
+      · simp only [locateFace_linear] at hxa; cases hxa
+  · rintro (rfl | ⟨hd, x, hxi, hxo⟩)
+    · exact Or.inl rfl
+    · right
+      have hnv : x ∉ vertsOf ⟨[], [[a, b]], []⟩ ⟨[], [[c, d]], []⟩ := by
+        intro hv
+        rcases verts_line_line hv with h | h | h
+        · exact hxi.2.1 h
+        · exact hxi.2.2 h
+        · exact hxo h
+      obtain ⟨y, hy, hyd, hya, hyb⟩ := atom_one_of_nonvertex (closedRings_of_noAreas rfl) (closedRings_of_noAreas rfl)
+        hnv (s := (a, b)) (by rw [allSegs_line, allSegs_line]; simp) hxi.1
+      refine ⟨y, hy, ?_, ?_, by rw [hyd]; exact hd⟩
+      · rw [hya]; exact (locate_line_inside a b x hab).2 hxi
+      · rw [hyb]; exact (locate_line_outside_iff c d x).2 hxo
+
+end Geo.Proofs.RELM3
